@@ -132,3 +132,97 @@ Proof.
   unfold add3, sub3, scl3, dot3, xhalf, ntwo. num_R. rewrite Rdec_half.
   f_equal; [f_equal|]; field.
 Qed.
+
+(* ---------------------------------------------------------------- K and B of the reference acceleration *)
+Lemma minimp_pos : 0 < Rdec 1 (-4).
+Proof. unfold Rdec. apply Rdiv_lt_0_compat; [lra|]. apply IZR_lt. reflexivity. Qed.
+
+(* MJX's formulation equals the C formulation for a solref of one sign, dmax inside the clamp and no mjMINVAL guard firing *)
+Lemma mjx_kb_eq : forall (refsafe : bool) (h s0 s1 dmax : R),
+    (0 < s0 /\ 0 < s1) \/ (s0 < 0 /\ s1 < 0) ->
+    0 < h -> Rdec 1 (-4) <= dmax <= Rdec 9999 (-4) ->
+    (forall tc : R, s0 <= tc -> Rdec 1 (-15) < dmax * dmax * tc * tc * s1 * s1 /\ Rdec 1 (-15) < dmax * tc) ->
+    Rdec 1 (-15) < dmax * dmax -> Rdec 1 (-15) < dmax ->
+    mjx_kb refsafe h s0 s1 dmax = c_kb refsafe h s0 s1 dmax.
+Proof.
+  intros refsafe h s0 s1 dmax Hs Hh [Hlo Hhi] Hg Hg2 Hg1.
+  pose proof minimp_pos as P4.
+  unfold mjx_kb, c_kb, xMINIMP, xMAXIMP, xMINVAL, nmax, nmin, ntwo. num_R.
+  (* the clamp of dmax is the identity *)
+  assert (C1 : (if Rltb (Rdec 1 (-4)) dmax then dmax else Rdec 1 (-4)) = dmax).
+  { destruct (Rltb (Rdec 1 (-4)) dmax) eqn:E; [reflexivity|]. apply Rltb_false in E. lra. }
+  assert (C2 : (if Rltb dmax (Rdec 1 (-4)) then Rdec 1 (-4) else dmax) = dmax).
+  { destruct (Rltb dmax (Rdec 1 (-4))) eqn:E; [|reflexivity]. apply Rltb_true in E. lra. }
+  rewrite C1, C2.
+  assert (C3 : (if Rltb (Rdec 9999 (-4)) dmax then Rdec 9999 (-4) else dmax) = dmax).
+  { destruct (Rltb (Rdec 9999 (-4)) dmax) eqn:E; [|reflexivity]. apply Rltb_true in E. lra. }
+  assert (C4 : (if Rltb dmax (Rdec 9999 (-4)) then dmax else Rdec 9999 (-4)) = dmax).
+  { destruct (Rltb dmax (Rdec 9999 (-4))) eqn:E; [reflexivity|]. apply Rltb_false in E. lra. }
+  rewrite C3, C4.
+  destruct Hs as [[H0 H1] | [H0 H1]].
+  - (* standard form *)
+    rewrite (proj2 (Rltb_true 0 s0) H0), (proj2 (Rltb_true 0 s1) H1).
+    rewrite (proj2 (Rleb_false s0 0) H0), (proj2 (Rleb_false s1 0) H1).
+    rewrite andb_true_r.
+    set (tc := if refsafe then (if Rltb s0 (IZR 2 * h) then IZR 2 * h else s0) else s0).
+    assert (Htc : s0 <= tc).
+    { unfold tc. destruct refsafe; [|lra]. destruct (Rltb s0 (IZR 2 * h)) eqn:E; [apply Rltb_true in E; lra | lra]. }
+    destruct (Hg tc Htc) as [G1 G2].
+    rewrite (proj2 (Rltb_true 0 tc)) by lra.
+    rewrite (proj2 (Rltb_true (Rdec 1 (-15)) (dmax * dmax * tc * tc * s1 * s1)) G1).
+    rewrite (proj2 (Rltb_true (Rdec 1 (-15)) (dmax * tc)) G2).
+    reflexivity.
+  - (* direct form *)
+    rewrite (proj2 (Rltb_false 0 s0)) by lra. rewrite (proj2 (Rltb_false 0 s1)) by lra.
+    rewrite (proj2 (Rleb_true s0 0)) by lra. rewrite (proj2 (Rleb_true s1 0)) by lra.
+    rewrite andb_false_r.
+    rewrite (proj2 (Rltb_false 0 s0)) by lra.
+    rewrite (proj2 (Rltb_true (Rdec 1 (-15)) (dmax * dmax)) Hg2).
+    rewrite (proj2 (Rltb_true (Rdec 1 (-15)) dmax) Hg1).
+    reflexivity.
+Qed.
+
+(* what the two forms mean: standard form = reference dynamics with damping ratio solref[1] (B^2 = 4 K dampratio^2) and time constant
+   dmax * timeconst; direct form = the given stiffness and damping divided by dmax^2 resp. dmax *)
+Lemma c_kb_standard : forall (h tc dr dmax : R),
+    0 < tc -> 0 < dr -> Rdec 1 (-4) <= dmax <= Rdec 9999 (-4) ->
+    Rdec 1 (-15) < dmax * dmax * tc * tc * dr * dr -> Rdec 1 (-15) < dmax * tc ->
+    let '(K, B) := c_kb false h tc dr dmax in
+    K = 1 / (dmax * dmax * tc * tc * dr * dr) /\ B = 2 / (dmax * tc) /\ B * B = 4 * K * (dr * dr).
+Proof.
+  intros h tc dr dmax H0 H1 [Hlo Hhi] G1 G2. pose proof minimp_pos as P4.
+  unfold c_kb, xMINIMP, xMAXIMP, xMINVAL, nmax, nmin, ntwo. num_R.
+  assert (C2 : (if Rltb (Rdec 1 (-4)) dmax then dmax else Rdec 1 (-4)) = dmax).
+  { destruct (Rltb (Rdec 1 (-4)) dmax) eqn:E; [reflexivity|]. apply Rltb_false in E. lra. }
+  rewrite C2.
+  assert (C3 : (if Rltb (Rdec 9999 (-4)) dmax then Rdec 9999 (-4) else dmax) = dmax).
+  { destruct (Rltb (Rdec 9999 (-4)) dmax) eqn:E; [|reflexivity]. apply Rltb_true in E. lra. }
+  rewrite C3. cbn [andb].
+  rewrite (proj2 (Rltb_true 0 tc) H0), (proj2 (Rltb_true 0 dr) H1).
+  rewrite (proj2 (Rltb_true (Rdec 1 (-15)) (dmax * dmax * tc * tc * dr * dr)) G1).
+  rewrite (proj2 (Rltb_true (Rdec 1 (-15)) (dmax * tc)) G2).
+  split; [reflexivity|]. split; [reflexivity|].
+  assert (dmax <> 0) by lra. assert (tc <> 0) by lra. assert (dr <> 0) by lra.
+  field. repeat split; assumption.
+Qed.
+
+Lemma c_kb_direct : forall (refsafe : bool) (h k b dmax : R),
+    0 < k -> 0 < b -> Rdec 1 (-4) <= dmax <= Rdec 9999 (-4) -> Rdec 1 (-15) < dmax * dmax -> Rdec 1 (-15) < dmax ->
+    let '(K, B) := c_kb refsafe h (- k) (- b) dmax in
+    K * (dmax * dmax) = k /\ B * dmax = b.
+Proof.
+  intros refsafe h k b dmax H0 H1 [Hlo Hhi] G2 G1. pose proof minimp_pos as P4.
+  unfold c_kb, xMINIMP, xMAXIMP, xMINVAL, nmax, nmin, ntwo. num_R.
+  assert (C2 : (if Rltb (Rdec 1 (-4)) dmax then dmax else Rdec 1 (-4)) = dmax).
+  { destruct (Rltb (Rdec 1 (-4)) dmax) eqn:E; [reflexivity|]. apply Rltb_false in E. lra. }
+  rewrite C2.
+  assert (C3 : (if Rltb (Rdec 9999 (-4)) dmax then Rdec 9999 (-4) else dmax) = dmax).
+  { destruct (Rltb (Rdec 9999 (-4)) dmax) eqn:E; [|reflexivity]. apply Rltb_true in E. lra. }
+  rewrite C3.
+  rewrite (proj2 (Rltb_false 0 (- k))) by lra. rewrite andb_false_r.
+  rewrite (proj2 (Rltb_false 0 (- k))) by lra. rewrite (proj2 (Rltb_false 0 (- b))) by lra.
+  rewrite (proj2 (Rltb_true (Rdec 1 (-15)) (dmax * dmax)) G2).
+  rewrite (proj2 (Rltb_true (Rdec 1 (-15)) dmax) G1).
+  assert (dmax <> 0) by lra.
+  split; field; assumption.
+Qed.
